@@ -56,6 +56,7 @@ class BTGen:
         self.adata = []
         self.full = set()
         self.nonzero_targets = False
+        self.wellformed = False      # C10: keep to inputs the property calls well-formed
 
     def key(self):
         k = self.next_key
@@ -94,8 +95,9 @@ class BTGen:
     def selector(self, tickers, dates):
         rng = self.rng
         k = rng.choice(["all", "all", "these", "hasdata", "momentum", "where", "setstat_n"])
+        wf = self.wellformed
         if k == "all" or not tickers:
-            return [["selectall", rng.random() < 0.1, rng.random() < 0.1]]
+            return [["selectall", rng.random() < 0.1 and not wf, rng.random() < 0.1]]
         if k == "these":
             return [["selectthese", rng.sample(tickers, rng.randint(1, len(tickers))), False, rng.random() < 0.1]]
         if k == "hasdata":
@@ -104,7 +106,7 @@ class BTGen:
         if k == "momentum":
             n = rng.choice([1, 2, 3])
             return [["selectall", False, False],
-                    ["stack", [["totalreturn", 0, rng.choice([2, 3, 5, 9]), 0, rng.choice([0, 0, 1])],
+                    ["stack", [["totalreturn", 0, rng.choice([2, 3, 5, 9]), 0, 0 if wf else rng.choice([0, 0, 1])],
                                ["selectn", hx(float(n)), rng.random() < 0.7, rng.random() < 0.2, False]]]]
         if k == "where":
             key = self.key()
@@ -116,13 +118,13 @@ class BTGen:
         self.adata.append([key, ["frame", list(dates), cols]])
         n = rng.choice([hx(1.0), hx(2.0), hx(0.5), hx(0.34)])
         return [["selectall", False, False], ["setstat", key, 0, rng.choice([0, 0, 1])],
-                ["selectn", n, rng.random() < 0.5, False, rng.random() < 0.5]]
+                ["selectn", n, rng.random() < 0.5, False, rng.random() < 0.5 or wf]]
 
     # ---- weighting
     def weigher(self, tickers, dates):
         rng = self.rng
         k = rng.choice(["equal", "equal", "specified", "target"])
-        full = [t for t in tickers if t in self.full] if rng.random() < 0.9 else tickers
+        full = [t for t in tickers if t in self.full] if (rng.random() < 0.9 or self.wellformed) else tickers
         if k != "equal" and not full:
             k = "equal"
         if k != "equal":
@@ -151,7 +153,7 @@ class BTGen:
             out.append(["scale", hx(rng.choice([0.5, 0.75, -0.5, 1.0]))])
         if rng.random() < 0.15:
             out.append(["limitdeltas", hx(rng.choice([0.0625, 0.125, 0.25])), []])
-        if rng.random() < 0.12 and k == "equal":
+        if rng.random() < 0.12 and k == "equal" and not (self.wellformed and len(out) > 1):
             out.append(["limitweights", hx(rng.choice([0.25, 0.5, 0.75]))])
         return out
 
@@ -159,7 +161,7 @@ class BTGen:
         rng = self.rng
         st = [self.calendar_scheduler() if gated else self.scheduler(dates)]
         if rng.random() < 0.12:
-            st.insert(0, ["always", True, ["capitalflow", hx(dy(rng, -5000, 20000, 1))]])
+            st.insert(0, ["always", True, ["capitalflow", hx(dy(rng, 0 if self.wellformed else -5000, 20000, 1))]])
         st += self.selector(tickers, dates)
         if rng.random() < 0.15:
             st.append(["require", "nonempty", "selected", False])
@@ -184,7 +186,7 @@ class BTGen:
             st.append(["always", True, ["rebalanceovertime", hx(float(rng.randint(2, 4)))]])
         else:
             st.append(["rebalance"])
-        if rng.random() < 0.12:
+        if rng.random() < 0.12 and not self.wellformed:
             # a user-written algo after the stock ones: a fee / top-up booked without asking for an update
             st.append(["useradjust", hx(dy(rng, -200, 50, 4)), rng.random() < 0.3, rng.random() < 0.3])
         return st
@@ -338,6 +340,71 @@ def gen_case(rng, name):
     return {"name": name, "dates": dates, "intpos": rng.random() < 0.5, "comm": comm, "prices": prices,
             "bidoffer": bidoffer, "coupons": None, "cost_long": None, "cost_short": None, "adata": g.adata,
             "capital": hx(float(rng.choice([10000, 100000, 1000000]))), "tree": tree, "pyseed": rng.randint(0, 1000)}
+
+
+def gen_wellformed_case(rng, name):
+    """C10: increasing unique dates, finite positive prices from the listing date on (no gaps, no zeros), long/short
+    weights of total size <= 1, the five commission families, children funded on the first date and never
+    de-funded, no look-back window that can be empty, no user-written bookings"""
+    g = BTGen(rng)
+    g.wellformed = True
+    n = rng.randint(6, 24)
+    dates = gen_dates(rng, n)
+    nt = rng.randint(2, 6)
+    tickers = list(range(1, nt + 1))
+    prices = [[t, gen_price_col(rng, n, p_nan=0.0, late=rng.random() < 0.2, zero=False)] for t in tickers]
+    g.full = {t for t, col in prices if NAN not in col}
+    next_id = [nt + 1]
+
+    def nid():
+        next_id[0] += 1
+        return next_id[0]
+
+    if rng.random() < 0.6:
+        decl = rng.random() < 0.5
+        sub = rng.sample(tickers, rng.randint(1, nt)) if decl else []
+        kids = []
+        for t in sub:
+            if rng.random() < 0.6:
+                kids.append(["sec", t, "sec", False, hx(1.0), "str"])
+            else:
+                kids.append(["sec", t, "sec", False, hx(rng.choice([1.0, 2.0, 0.5])), rng.random() < 0.3])
+        tree = ["strat", nid(), False, kids, g.stack(sub or tickers, dates)]
+    else:
+        kids = []
+        for _ in range(rng.randint(1, 3)):
+            sub = rng.sample(tickers, rng.randint(1, nt))
+            ckids = [["sec", t, "sec", False, hx(1.0), "str"] for t in sub] if rng.random() < 0.7 else []
+            kids.append(["strat", nid(), False, ckids, g.stack(sub if ckids else tickers, dates, gated=True)])
+        if rng.random() < 0.4:
+            full = sorted(g.full)
+            if full:
+                kids.append(["sec", rng.choice(full), "sec", False, hx(1.0), "str"])
+        ids = [k[1] for k in kids]
+        first = rng.choice([["runonce"], ["runperiod", "daily", True, False, False], ["runperiod", "weekly", True, False, True]])
+        if rng.random() < 0.5:
+            pst = [first, ["selectthese", ids, False, False], ["weighequally"], ["rebalance"]]
+        else:
+            ws = [rng.randint(1, 6) / 16.0 for _ in ids]
+            while sum(ws) > 1:
+                ws = [w / 2 for w in ws]
+            pst = [first, ["weighspecified", [[i, hx(w)] for i, w in zip(ids, ws)]], ["rebalance"]]
+        tree = ["strat", nid(), False, kids, pst]
+    bidoffer = None
+    if rng.random() < 0.3:
+        bidoffer = [[t, [hx(dy(rng, 0, 1, 8)) for _ in range(n)]] for t in tickers]
+    comm = ["none"]
+    if rng.random() < 0.6:
+        comm = rng.choice([["flat", hx(dy(rng, 0, 4, 4))], ["pershare", hx(0.015625)], ["prop", hx(0.001953125)],
+                           ["maxflat", hx(1.0), hx(0.0078125)]])
+    return {"name": name, "dates": dates, "intpos": rng.random() < 0.5, "comm": comm, "prices": prices,
+            "bidoffer": bidoffer, "coupons": None, "cost_long": None, "cost_short": None, "adata": g.adata,
+            "capital": hx(float(rng.choice([10000, 100000, 1000000]))), "tree": tree, "pyseed": rng.randint(0, 1000)}
+
+
+def gen_wellformed_cases(seed, n, prefix="w"):
+    rng = random.Random(seed)
+    return [gen_wellformed_case(rng, "%s%05d" % (prefix, i)) for i in range(n)]
 
 
 def gen_cases(seed, n, prefix="b"):
